@@ -108,21 +108,25 @@ def lexRaw (name : Str) : Nat → Str → Option (Str × Str)
     | some r => some ([], r)
     | none => (lexRaw name k cs).map (fun x => (c :: x.1, x.2))
 
+/-- does the comment close (`--` ws* `>`) start here?  Returns what follows it. -/
+def commentCloses : Str → Option Str
+  | '-' :: '-' :: r =>
+    match r.dropWhile isWs with
+    | '>' :: r2 => some r2
+    | _ => none
+  | _ => none
+
 /-- first position of `--` ws* `>`: comment body and what follows the close -/
 def lexComment : Nat → Str → Option (Str × Str)
   | 0, _ => none
   | _ + 1, [] => none
   | k + 1, c :: cs =>
-    let closes : Option Str :=
-      match c :: cs with
-      | '-' :: '-' :: r =>
-        match r.dropWhile isWs with
-        | '>' :: r2 => some r2
-        | _ => none
-      | _ => none
-    match closes with
+    match commentCloses (c :: cs) with
     | some r => some ([], r)
     | none => (lexComment k cs).map (fun x => (c :: x.1, x.2))
+
+/-- characters of a data run -/
+def isTextCh (d : Char) : Bool := d ≠ '<' && d ≠ '&'
 
 def isRawText (n : Str) : Bool := n = "script".toList || n = "style".toList
 
@@ -198,7 +202,7 @@ def lexOne (fuel : Nat) (s : Str) : Option (List Token × Str) :=
         | _ => none
       else some ([.data ['&']], c :: r1)
   | c :: r =>
-    let dr := span (fun d => d ≠ '<' && d ≠ '&') (c :: r)
+    let dr := span isTextCh (c :: r)
     some ([.data dr.1], dr.2)
 
 def lexN : Nat → Str → Option (List Token)
